@@ -101,6 +101,12 @@ CHECKS = {
     text='Generated sequences of print / println / printf with all value kinds and field styles (anonymous, numbered incl. repeated, named, format specs), including routines that print while being evaluated as printf arguments; the exact text on sys.stdout and its interleaving with device commands are compared with the model.',
     design='DESIGN.md section 3, C19',
     note='A single trailing newline at the end and a space after a printf text that ends in a newline are accepted either way.'),
+ 'C20': dict(
+    technique='Hypothesis rule-based state machine over the production front end / web app / JobControl with a stub flask, recording jobs and cooperative job threads, compared with a dict/list model after every step',
+    category='exploration',
+    text='Stateful model-based testing over generated manifests (hostile strings) and request sequences interleaved with job completions; jobs created, the file each is built from, queue / current / background state, stop requests per job, escaped strings handed to templates, default path/title and status/capture rendering are compared with the model after every step.',
+    design='DESIGN.md section 3, C20',
+    note='Flask and Jinja are not installed: flask is stubbed and escaping is asserted at construction of the script controls. Thread interleavings are out of scope here (C08/C09).'),
 }
 PENDING_REASON = 'check not built yet in this session; planned as described in DESIGN.md (property-based / fuzzing check, same runner)'
 
